@@ -209,6 +209,9 @@ def main():
                     if o['class'] == 0 and not v['ok']:
                         agg['ACCEPTED_WITH_verify_false.' + t] += 1
                         print('  accepted although verify oracle false: case', case, 'env', s['env'])
+                    if o['class'] == 1 and v['ok'] and 'verification for client' in o['err']:
+                        agg['REJECTED_BY_VERIFICATION_WITH_verify_true.' + t] += 1
+                        print('  rejected by the client although verify oracle true: case', case, 'env', s['env'])
                     if json.dumps(d['pkt'], sort_keys=True) not in packs:
                         err(case, 'decoded packet without pack entry')
             elif t == 'send':
